@@ -1,10 +1,13 @@
 #!/usr/bin/env python3
 """Print the sub-agent prompt for a property id (text of the property only; nothing from /verif's machinery)."""
 import json, sys
+import os
 pid = sys.argv[1]
+WT = os.environ.get('SEED_WT_ROOT', '/tmp/wt')
+OUT = os.environ.get('SEED_OUT_ROOT', '/tmp/wt-out')
 n = int(sys.argv[2]) if len(sys.argv) > 2 else 2
 p = next(json.loads(l) for l in open('/verif/properties.jsonl') if json.loads(l)['id'] == pid)
-print(f"""You are helping to evaluate a verification effort by seeding realistic bugs. You work ONLY inside the scratch git worktree /tmp/wt/{pid} (a checkout of the edgedb/edgedb "Gel" database server at a pinned commit) and write your results under /tmp/wt-out/{pid}/. Do NOT read, list or modify anything under /verif or /repo (treat them as non-existent); do not commit anything.
+print(f"""You are helping to evaluate a verification effort by seeding realistic bugs. You work ONLY inside the scratch git worktree {WT}/{pid} (a checkout of the edgedb/edgedb "Gel" database server at a pinned commit) and write your results under {OUT}/{pid}/. Do NOT read, list or modify anything under /verif or /repo (treat them as non-existent); do not commit anything.
 
 The property that should hold for this codebase:
 
@@ -17,14 +20,14 @@ The property that should hold for this codebase:
 Your task: produce {n} DIFFERENT, independent changes (each on its own, starting from the clean worktree) to the repository's source code (under edb/, Python or Rust) such that each change
   1. BREAKS the property above (a real violation of the statement, not merely a changed message or a crash on every input),
   2. still compiles/imports and still passes the repository's pinned test suite:
-       cd /tmp/wt/{pid} && /venv/bin/python -m pytest -q -p no:cacheprovider --continue-on-collection-errors tests/common tests/test_profiling.py tests/test_sourcecode.py
+       cd {WT}/{pid} && /venv/bin/python -m pytest -q -p no:cacheprovider --continue-on-collection-errors tests/common tests/test_profiling.py tests/test_sourcecode.py
      (on the clean tree: 58 passed, 18 skipped, 1 failed [test_cqa_rust_clippy, needs network], 2 collection errors [native module not built]; with your change the result must be exactly the same), and
   3. is REALISTIC and SUBTLE: the kind of regression a plausible refactoring, optimisation or "small fix" could introduce, which ordinary use would NOT expose at once. It should need something specific to manifest: a particular interleaving, a fault or failure at a particular point, a multi-step sequence of operations, an unusual input/value, or two cooperating sites that each look fine alone. Do not make changes that break the very first simple use (e.g. every query fails), and do not touch tests.
 
-For each change provide a demonstration: a small standalone Python program demo.py that exits non-zero (and prints what went wrong) WITH the change applied and exits 0 on the clean tree. Native modules are not built in this sandbox and there is no PostgreSQL and no network; read /root/subst/README.md first: it explains how to import and run the repository's Python code offline against your worktree (VERIF_REPO=/tmp/wt/{pid} PYTHONPATH=/root/subst /venv/bin/python demo.py). Code in edb/common, edb/server/connpool etc. that imports without native modules can also be run with plain PYTHONPATH=/tmp/wt/{pid}. The demo must take the worktree location from the environment variable VERIF_REPO (default /tmp/wt/{pid}) and must not hard-code it elsewhere.
+For each change provide a demonstration: a small standalone Python program demo.py that exits non-zero (and prints what went wrong) WITH the change applied and exits 0 on the clean tree. Native modules are not built in this sandbox and there is no PostgreSQL and no network; read /root/subst/README.md first: it explains how to import and run the repository's Python code offline against your worktree (VERIF_REPO={WT}/{pid} PYTHONPATH=/root/subst /venv/bin/python demo.py). Code in edb/common, edb/server/connpool etc. that imports without native modules can also be run with plain PYTHONPATH={WT}/{pid}. The demo must take the worktree location from the environment variable VERIF_REPO (default {WT}/{pid}) and must not hard-code it elsewhere.
 
-Deliverables, for k in 1..{n}: directory /tmp/wt-out/{pid}/{{k}}/ containing
-  - patch.diff  : output of `git -C /tmp/wt/{pid} diff` for that change alone (must apply with `git apply` to a clean checkout)
+Deliverables, for k in 1..{n}: directory {OUT}/{pid}/{{k}}/ containing
+  - patch.diff  : output of `git -C {WT}/{pid} diff` for that change alone (must apply with `git apply` to a clean checkout)
   - demo.py     : the demonstration (fails with the patch, passes without)
   - meta.json   : {{"property": "{pid}", "summary": "...what was changed...", "needs_to_manifest": "...the specific input/sequence/interleaving/fault needed...", "ran": ["commands you ran and their outcome, including the pinned tests with the patch and the demo with and without the patch"]}}
-Verify all of that yourself (demo on clean tree passes; apply change; demo fails; pinned tests pass), then restore the worktree to clean (`git -C /tmp/wt/{pid} checkout -- .`) before starting the next change and when you finish. Keep your scratch files out of the worktree or delete them. Your final message should list, per change, the files written and one sentence on what it breaks and what it takes to manifest.""")
+Verify all of that yourself (demo on clean tree passes; apply change; demo fails; pinned tests pass), then restore the worktree to clean (`git -C {WT}/{pid} checkout -- .`) before starting the next change and when you finish. Keep your scratch files out of the worktree or delete them. Your final message should list, per change, the files written and one sentence on what it breaks and what it takes to manifest.""")
